@@ -181,6 +181,26 @@ def _crosses(r, width):
     return any(e and (a % 64) + width > 64 for e, a in zip(r['exec'], r['a']))
 
 
+def classify(inst):
+    """Which of the known root causes an instruction (as issued) can run into: (class, cause, defect)."""
+    opc = inst['opc']
+    cls = CLS.get(opc, 'opc%d' % opc)
+    isa_w = min(SIZE.get(cls, 4), 4)
+    sub = cls in ('ld_ushort', 'ld_sbyte', 'ld_sshort', 'st_byte', 'st_short')
+    # what the unchanged code moves per register: a dword for the signed sub-dword loads and the sub-dword stores
+    impl_w = 4 if cls in ('ld_sbyte', 'ld_sshort', 'st_byte', 'st_short') else (1 if cls == 'ld_ushort' else isa_w)
+    pieces_cross = any(e and any(((a + 4 * j) % 64) + isa_w > 64 for j in range(max(1, SIZE.get(cls, 4) // 4)))
+                       for e, a in zip(inst['exec'], inst['a']))
+    if pieces_cross:
+        return cls, 'access_crosses_line', 'line_crossing'
+    if sub:
+        return cls, ('moves_dword_past_line_end' if _crosses(inst, impl_w) else 'width'), 'sub_dword_width'
+    return cls, 'other', 'none'
+
+
+RANK = {'access_crosses_line': 3, 'moves_dword_past_line_end': 2, 'width': 1, 'other': 0}
+
+
 def signature(recs, at, why):
     ev = recs[min(at, len(recs)) - 1]
     ex, done = _exec_of(recs, at)
@@ -189,25 +209,12 @@ def signature(recs, at, why):
     inst = ex.get(ev.get('id')) if 'id' in ev else None
     if ev.get('e') == 'Panic':
         sig['msg'] = ('slice bounds out of range' if 'slice bounds' in str(ev.get('msg')) else str(ev.get('msg'))[:60])
+        # the panic belongs to one of the instructions in flight (several wavefronts): the one that can explain it
         pend = [r for i, r in sorted(ex.items()) if i not in done]
-        inst = pend[-1] if pend else None
+        pend.sort(key=lambda r: -RANK[classify(r)[1]])
+        inst = pend[0] if pend else None
     if inst is not None:
-        opc = inst['opc']
-        cls = CLS.get(opc, 'opc%d' % opc)
-        sig['cls'] = cls
-        isa_w = min(SIZE.get(cls, 4), 4)
-        sub = cls in ('ld_ushort', 'ld_sbyte', 'ld_sshort', 'st_byte', 'st_short')
-        # what the unchanged code moves per register: a dword for the signed sub-dword loads and the sub-dword stores
-        impl_w = 4 if cls in ('ld_sbyte', 'ld_sshort', 'st_byte', 'st_short') else (1 if cls == 'ld_ushort' else isa_w)
-        pieces_cross = any(e and any(((a + 4 * j) % 64) + isa_w > 64 for j in range(max(1, SIZE.get(cls, 4) // 4)))
-                           for e, a in zip(inst['exec'], inst['a']))
-        if pieces_cross:
-            sig['cause'], sig['defect'] = 'access_crosses_line', 'line_crossing'
-        elif sub:
-            sig['cause'] = 'moves_dword_past_line_end' if _crosses(inst, impl_w) else 'width'
-            sig['defect'] = 'sub_dword_width'
-        else:
-            sig['cause'], sig['defect'] = 'other', 'none'
+        sig['cls'], sig['cause'], sig['defect'] = classify(inst)
     return sig
 
 
